@@ -162,7 +162,7 @@ def run_history(c: Campaign, ops: list[tuple[str, int, int]], case: dict[str, An
                         v["attempts"] += 1
                         if got.attempts != v["attempts"]:
                             viol.append(("attempt-count", f"{marker}: message.attempts={got.attempts}, model {v['attempts']}"))
-                        handles.append({"worker": wk, "msg": got, "marker": marker, "inc": v["inc"]})
+                        handles.append({"worker": wk, "msg": got, "marker": marker, "inc": v["inc"], "att": v["attempts"]})
             elif name in ("ack", "stale_ack", "resched", "resched0", "extend") and handles:
                 h = handles[a % len(handles)] if name == "stale_ack" else handles[-1 - (a % min(3, len(handles)))]
                 v = mod.m[h["marker"]]
@@ -176,12 +176,22 @@ def run_history(c: Campaign, ops: list[tuple[str, int, int]], case: dict[str, An
                     handles.remove(h)
                 elif name in ("resched", "resched0"):
                     q[h["worker"]].reschedule(h["msg"], timedelta(seconds=0 if name == "resched0" else 3600))
-                    if same_row:
+                    # a handle is stale once the message has been claimed again (attempts moved on): the current holder's lock
+                    # is not the stale holder's to release
+                    superseded = same_row and v["attempts"] != h.get("att", v["attempts"])
+                    if superseded:
+                        stats["stale_resched"] = stats.get("stale_resched", 0) + 1
+                    elif same_row:
                         v.update(holder=None, due=(name == "resched0"))
                     handles.remove(h)
                 else:
                     r = q[h["worker"]].extend_lock(h["msg"])
-                    if same_row:
+                    superseded = same_row and v["attempts"] != h.get("att", v["attempts"])
+                    if superseded:
+                        stats["stale_extend"] = stats.get("stale_extend", 0) + 1
+                        if r:
+                            viol.append(("stale-extend-accepted", f"extend_lock by a superseded holder of {h['marker']} (claimed at attempt {h.get('att')}, now {v['attempts']}) returned True"))
+                    elif same_row:
                         if not r:
                             viol.append(("extend-lock-lost-row", f"extend_lock returned False for {h['marker']} which is still in the queue"))
                         v["holder"] = h["worker"] if v["holder"] is None else v["holder"]
